@@ -280,16 +280,7 @@ def check_case(case, res: Result):
     # (a) two or more mutually conflicting requests were dequeued by the same command-manager tick. The newest is
     #     executed first, cancels "by name" (hitting the instance of a third, older request or nothing at all) and is
     #     then itself cancelled by the older request of the same tick, which re-creates an instance under its own id.
-    burst: dict[int, set] = {}          # tick -> instance ids tainted by such a burst (requests + older live ones)
-    by_tick: dict[int, list] = {}
-    for q in reqs:
-        by_tick.setdefault(q[0], []).append(q)
-    for t, qs in by_tick.items():
-        grp = [q for q in qs if any(o is not q and conflicts(o[1], q[1]) for o in qs)]
-        if len(grp) >= 2:
-            tainted = {q[2] for q in grp}
-            tainted |= {o for o in alive_at_tick_start.get(t, ()) if any(conflicts(name_of[o], q[1]) for q in grp)}
-            burst[t] = tainted
+    burst = CR.burst_tainted(reqs, alive_at_tick_start, name_of, conflicts, UOD_NAMES)
     n_burst = len(burst)
     res.count("same_tick_conflicting_request_bursts", n_burst)
 
